@@ -5,6 +5,7 @@ package main
 import (
 	"fmt"
 	"math/rand"
+	"reflect"
 	"sync"
 	"sync/atomic"
 	"time"
@@ -535,6 +536,98 @@ func c09DoubleExpiry(w *ndWriter, wait time.Duration) {
 	e.finish(w, "double-expiry", both)
 }
 
+// the pool's settings travel through reflection: the harness must still build when a change turns the embedded settings value into a
+// pointer (or back) - such a change is then judged by what the pools do, not by a compile error of the harness
+func wpSettingsValue(p *worker.DefaultWorkerPool) reflect.Value {
+	fv := reflect.ValueOf(p).Elem().FieldByName("DefaultWorkerPoolSettings")
+	if fv.Kind() == reflect.Ptr {
+		return fv.Elem()
+	}
+	return fv
+}
+func wpSettingsCopy(p *worker.DefaultWorkerPool) *worker.DefaultWorkerPoolSettings {
+	c := wpSettingsValue(p).Interface().(worker.DefaultWorkerPoolSettings)
+	return &c
+}
+func wpSetSettings(p *worker.DefaultWorkerPool, from *worker.DefaultWorkerPool) *worker.DefaultWorkerPool {
+	m := reflect.ValueOf(p).MethodByName("SetDefaultWorkerPoolSettings")
+	arg := wpSettingsValue(from)
+	if m.Type().In(0).Kind() == reflect.Ptr {
+		arg = reflect.ValueOf(wpSettingsCopy(from))
+	}
+	m.Call([]reflect.Value{arg})
+	return p
+}
+
+// sibling pools: a second pool is configured differently while the first is alive (before and after the first has run jobs); the
+// first keeps ITS maximum and ITS panic handler.  One line for the first pool.
+func c09Siblings(w *ndWriter, wait time.Duration) {
+	e := newC09(1, 1, 1, 4, 4)
+	warm := mkJob(1, "ok")
+	acc := map[int]bool{}
+	if e.schedule(warm, 0) == "ok" {
+		acc[1] = true
+	}
+	e.quiesce(acc, wait)
+	other := newC09(4, 4, 1, 4, 4) // maximum 4, standby 4, its own panic handler
+	defer other.pool.Close()
+	holds := []*c09Job{}
+	for id := 2; id <= 5; id++ {
+		j := mkJob(id, "hold")
+		holds = append(holds, j)
+		if e.schedule(j, 0) == "ok" {
+			acc[id] = true
+		}
+	}
+	time.Sleep(8 * time.Millisecond) // with a maximum of 1 only one of them can have started
+	for _, j := range holds {
+		close(j.gate)
+	}
+	if e.schedule(mkJob(6, "panic"), 0) == "ok" { // reported to THIS pool's handler
+		acc[6] = true
+	}
+	if e.schedule(mkJob(7, "ok"), 0) == "ok" {
+		acc[7] = true
+	}
+	e.quiesce(acc, wait)
+	time.Sleep(2 * time.Millisecond)
+	other.rec.mu.Lock()
+	for _, x := range other.rec.evs { // a handler call that landed in the sibling's log belongs to this pool's panic
+		if x["ev"] == "handler" {
+			e.rec.ev(E{"ev": "siblinghandler", "id": x["id"], "r": "-"})
+		}
+	}
+	other.rec.mu.Unlock()
+	e.finish(w, "sibling-pools", true)
+}
+
+// a closed pool refuses: after Close has returned every submission - Schedule, ScheduleWithTimeout, InvokeWithTimeout - reports
+// ErrWorkerPoolIsClosed, whether Close also closes the job queue (the default) or leaves it open
+func c09ClosedPool(w *ndWriter, wait time.Duration) {
+	for _, leaveOpen := range []bool{false, true} {
+		e := newC09(2, 1, 1, 4, 4)
+		if leaveOpen {
+			e.pool.SetIsJobQueueClosedWhenClose(false)
+		}
+		acc := map[int]bool{}
+		if e.schedule(mkJob(1, "ok"), 0) == "ok" {
+			acc[1] = true
+		}
+		e.quiesce(acc, wait)
+		e.pool.Close()
+		e.rec.ev(E{"ev": "closeret", "id": 0, "r": "-"})
+		for id := 2; id <= 4; id++ {
+			e.schedule(mkJob(id, "ok"), id-2) // Schedule, ScheduleWithTimeout, InvokeWithTimeout
+		}
+		time.Sleep(3 * time.Millisecond)
+		name := "closed-pool"
+		if leaveOpen {
+			name = "closed-pool-queue-left-open"
+		}
+		e.finish(w, name, false)
+	}
+}
+
 func c09Stress(w *ndWriter, rng *rand.Rand, wait time.Duration) {
 	max := 1 + rng.Intn(4)
 	standby := 1 + rng.Intn(max)
@@ -548,8 +641,7 @@ func c09Stress(w *ndWriter, rng *rand.Rand, wait time.Duration) {
 	case 0: // a second pool built from the first one's settings in one call, its job queue set before any use
 		q2 := fpgo.NewBufferedChannelQueue[func()](C, B, 4).SetLoadFromPoolDuration(50 * time.Microsecond)
 		tmpl := e.pool
-		e.pool = worker.NewDefaultWorkerPool(fpgo.NewBufferedChannelQueue[func()](1, 1, 1), nil).
-			SetDefaultWorkerPoolSettings(tmpl.DefaultWorkerPoolSettings).SetJobQueue(q2)
+		e.pool = wpSetSettings(worker.NewDefaultWorkerPool(fpgo.NewBufferedChannelQueue[func()](1, 1, 1), nil), tmpl).SetJobQueue(q2)
 		tmpl.Close()
 	case 1: // workers allocated up front (never more than the maximum)
 		e.pool.PreAllocWorkerSize(1 + rng.Intn(2*max)) // also beyond the maximum: the bound must hold all the same
@@ -601,7 +693,9 @@ func c09Main(args []string) error {
 		c09HandlerReplaced(w, wait)
 		c09CloseThenPanic(w, wait)
 		c09PreAllocRace(w, wait)
-		runs += 3
+		c09Siblings(w, wait)
+		c09ClosedPool(w, wait)
+		runs += 6
 		c09ExpiryBurst(w, wait)
 		runs += 2
 		c09PanicBurst(w, wait)
